@@ -321,6 +321,11 @@ func verifK_FinishClient() {
 	})
 	verifGo("reader", func() {
 		h, herr := st.Header()
+		if herr != nil {
+			// an error from Header() means no headers were delivered; delivered headers win over a simultaneous cancel
+			// ("delivered" = signalled: the frame's processing has closed the headers signal)
+			verifAssert(!(!vChanOpen(st.gotHeadersSignal) && len(st.headers["hk"]) == 1), "C02+C07.k-delivered-headers-win-over-cancel")
+		}
 		if herr == nil && len(h["hk"]) == 1 {
 			// the grpc.Header target may be read once Header() has returned
 			verifAssert(len(hdrT["hk"]) == 1, "C02+C15.k-header-target-set-before-headers-are-signalled")
